@@ -12,7 +12,7 @@ Definition targets (g : graph) (o : op) (x : N) : Prop :=
   | ORemoveNsTopo nm => In x (by_name g CNS nm)
   | ORemoveComponent n c => In x (first_neighbor g n RHas CComp) /\ name_of g x = c
   | ONodeRemoveNs n s => In x (first_neighbor g n RHas CNS) /\ name_of g x = s
-  | ODisconnect _ i => get_peers g i = Some [x]
+  | ODisconnect _ i => get_peers_typed g i T_ServicePort = Some [x]
   | OUnpeer a b => exists xy, unpeer_ends g a b = Some [xy] /\ (x = fst xy \/ x = snd xy)
   | ORemoveInterface s nm => In x (cpn g s) /\ name_of g x = nm
   | ORemoveChild p nm => In x (cpn g p) /\ name_of g x = nm
@@ -91,7 +91,7 @@ Proof.
 Qed.
 
 Lemma Inv_node_tail nm n :
-  Inv (bind (m_get (fun g => node_interface_list g n)) (fun ifs =>
+  Inv (bind (m_get (fun g => disc_list g (node_interface_list g n))) (fun ifs =>
        bind (for_each_set disconnect_peers_of ifs) (fun _ =>
        bind (m_get (fun g => by_name g CNode nm)) (fun all =>
        bind (uniq all EQuery EQuery) (fun n' => remove_node_graph n'))))).
@@ -101,7 +101,7 @@ Qed.
 
 Lemma del_node_tail nm n s s' x :
   cons g0 s ->
-  bind (m_get (fun g => node_interface_list g n)) (fun ifs =>
+  bind (m_get (fun g => disc_list g (node_interface_list g n))) (fun ifs =>
   bind (for_each_set disconnect_peers_of ifs) (fun _ =>
   bind (m_get (fun g => by_name g CNode nm)) (fun all =>
   bind (uniq all EQuery EQuery) (fun n' => remove_node_graph n')))) s = (inl tt, s') ->
@@ -224,10 +224,12 @@ Proof.
     apply bind_ok in E. destruct E as [[] [s1 [E1 E]]]. apply guard_ok in E1. destruct E1 as [_ ->].
     apply bind_ok in E. destruct E as [is_ [s1 [E1 E]]]. apply get_ok in E1. destruct E1 as [-> ->].
     apply bind_ok in E. destruct E as [i [s1 [E1 E]]]. apply uniq_ok in E1. destruct E1 as [Hi ->].
-    apply bind_ok in E. destruct E as [[] [s1 [E1 E]]]. apply ret_ok in E. destruct E as [_ E]. rewrite <- E in *.
+    apply bind_ok in E. destruct E as [[] [s1 [E0 E]]].
+    pose proof (cons_to g _ _ _ _ (Inv_disconnect_peers_of i) C0 E0) as C1.
+    apply bind_ok in E. destruct E as [[] [s2 [E1 E]]]. apply ret_ok in E. destruct E as [_ E]. rewrite <- E in *.
     simpl in Hi. destruct Hx as [Hx1 Hx2].
     assert (Hxc : In x (child_by_name g (first_neighbor g p RConnects CCP) iname)).
     { unfold child_by_name. apply filter_In. split; [exact Hx1 | apply N.eqb_eq; exact Hx2]. }
-    rewrite Hi in Hxc. destruct Hxc as [<-|[]]. apply (del_remove_cp g i false _ _ C0 E1).
+    rewrite Hi in Hxc. destruct Hxc as [<-|[]]. apply (del_remove_cp g i false _ _ C1 E1).
   - destruct Hx.
 Qed.
